@@ -61,3 +61,62 @@ class Exclusion(SysTarget):
 
 TARGETS = {"codebasin.finder:ParserState.get_setmap": Exclusion("exclusion", ("exclude", "outside", "multi", "forced"),
                                                                 quick_n=200, thorough_n=4000)}
+
+
+# ---- "a pattern given with -x is equivalent to the same pattern in the analysis file": front ends as subprocesses -----
+from native import cli as _cli, recorded as _R      # noqa: E402
+
+
+class DashX:
+    """codebasin / cbi-tree with `-x P` vs the same analysis file with P appended to its exclude list, for files whose
+    own list is order-sensitive (a negated pattern): same Total SLOC"""
+    proved = False
+    role = "bounded check: 6 fixed pattern lists x 2 front ends, as subprocesses"
+
+    CASES = [(["*.h", "!api.h"], "api.h"), (["*.h"], "main.c"), ([], "*.h"), (["sub/*", "!sub/keep.c"], "keep.c"),
+             (["!api.h", "*.h"], "api.h"), (["util.h"], "!util.h")]
+
+    def bound(self, tier):
+        return f"{len(self.CASES)} (analysis-file list, -x pattern) pairs x codebasin and cbi-tree"
+
+    def inputs(self, tier, seed):
+        for k in range(len(self.CASES)):
+            yield {"k": k}
+
+    def nontrivial(self, inp):
+        return True
+
+    def check(self, inp):
+        import json
+        import re
+        in_file, dash_x = self.CASES[inp["k"]]
+        files = {"main.c": "#include \"api.h\"\nint m;\nint n;\n", "api.h": "int a;\nint b;\n", "util.h": "int u;\n",
+                 "sub/keep.c": "int k;\n", "sub/drop.c": "int d;\n"}
+        with _R.tree(files) as root:
+            db = [{"directory": root, "file": os.path.join(root, f), "arguments": ["gcc", "-c", os.path.join(root, f)]}
+                  for f in ("main.c", "sub/keep.c", "sub/drop.c")]
+            with open(os.path.join(root, "db.json"), "w") as fh:
+                json.dump(db, fh)
+
+            def toml(name, pats):
+                with open(os.path.join(root, name), "w") as fh:
+                    fh.write("[codebase]\nexclude = [" + ", ".join(json.dumps(x) for x in pats) + "]\n\n[platform.p]\ncommands = \"db.json\"\n")
+                return os.path.join(root, name)
+            t1, t2 = toml("a1.toml", in_file), toml("a2.toml", in_file + [dash_x])
+            for module, extra in (("codebasin", ["-R", "summary"]), ("codebasin.tree", [])):
+                rc1, o1, e1 = _cli.run(module, extra + ["-x", dash_x, t1], root)
+                rc2, o2, e2 = _cli.run(module, extra + [t2], root)
+                if rc1 != 0 or rc2 != 0:
+                    return {"expected": "both runs succeed", "observed": (e1 or e2)[-300:], "klass": "exclusion:dash-x-run-fails"}
+                if module == "codebasin":
+                    v1, v2 = (re.search(r"Total SLOC: (\d+)", o).group(1) for o in (o1, o2))
+                else:
+                    strip = lambda o: re.sub(r"\x1b\[[0-9;]*m", "", o).replace(root, "<root>")      # noqa: E731
+                    v1, v2 = strip(o1), strip(o2)
+                if v1 != v2:
+                    return {"expected": f"{module}: `-x {dash_x}` with exclude = {in_file} gives what exclude = {in_file + [dash_x]} gives: {v2[-200:]}",
+                            "observed": v1[-200:], "klass": "exclusion:dash-x-not-equivalent-to-the-analysis-file"}
+        return None
+
+
+TARGETS["codebasin.__main__:_main"] = DashX()
